@@ -179,6 +179,8 @@ class SimParamSource(rally_params.ParamSource):
         p = SimParamSource(self.track, self._params, **self.kwargs)
         p.client_index = partition_index
         p.total = total_partitions
+        if isinstance(p._size, (list, tuple)):  # uneven partitions (as the bulk source's: the last clients get the shorter slices)
+            p._size = p._size[partition_index % len(p._size)]
         return p
 
     @property
